@@ -413,7 +413,14 @@ struct Outcome {
 
 /// panic signature on one line
 fn psig(p: &PanicInfo) -> String {
-    p.sig().split_whitespace().collect::<Vec<_>>().join(" ")
+    let mut s = p.sig().split_whitespace().collect::<Vec<_>>().join(" ");
+    // slicing panics quote the offending character: keep only the fixed part
+    for cut in ["; it is inside", " left: "] {
+        if let Some(i) = s.find(cut) {
+            s.truncate(i);
+        }
+    }
+    s
 }
 
 fn witness(input: &str) -> Value {
